@@ -521,12 +521,12 @@ impl EndpointD {
 //@@ fn file=fe2o3-amqp/src/link/sender.rs impl=`impl<L: endpoint::SenderLink> Drop for SenderInner<L>` name=drop as=sender_drop id=SenderInner::drop
 //@@ subst `handle.into()` => `output_to_handle(handle)` rule=R16
 //@@ spec
-    ensures drop_contract(*old(self), *final(self)),
+    ensures drop_contract(*old(self), *final(self)),     // [C13.drop.handle-released] [C13.drop.no-second-detach] [C13.drop.one-closing-detach] (spelled out in drop_contract above)
 //@@ end
 //@@ fn file=fe2o3-amqp/src/link/receiver.rs impl=`impl<L: endpoint::ReceiverLink> Drop for ReceiverInner<L>` name=drop as=receiver_drop id=ReceiverInner::drop
 //@@ subst `handle.into()` => `output_to_handle(handle)` rule=R16
 //@@ spec
-    ensures drop_contract(*old(self), *final(self)),
+    ensures drop_contract(*old(self), *final(self)),     // [C13.drop.handle-released] [C13.drop.no-second-detach] [C13.drop.one-closing-detach] (spelled out in drop_contract above)
 //@@ end
 }
 
